@@ -15,4 +15,5 @@ def run(tier):
     rel, q, c = H.ITEM
     reps.append(deductive.verify_function(rel, q, c, hooks=H.hooks(), prefix='%s::%s[update equations]' % (rel, q)))
     reps.append(H.local_tables_report())
+    reps.append(H.fixed_point_report())
     return reps
